@@ -279,6 +279,43 @@ def ob_roundtrip(di: int, si: int, li: int, nested: bool, native: bool) -> bool:
         return H.verdict(why is None, "dtype %s shape %s layout %s %s: %s" % (arr.dtype, arr.shape, LAYOUTS[la], comp, why))
 
 
+def ob_subclass(ki: int, nested: bool, ci: int) -> bool:
+    """
+    pre: 0 <= ki <= 3
+    pre: 0 <= ci <= 2
+    post: _
+    """
+    H.enter()
+    # ndarray *subclasses* keep their class and their extra state (mask, fill value, record access)
+    k, ne, c = H.select(ki, 0, 3), bool(nested), H.select(ci, 0, 2)
+    with H.native():
+        import numpy as np
+        import joblib
+        x = [lambda: np.ma.masked_array([1, 2, 3, 4], mask=[0, 1, 0, 1], fill_value=9),
+             lambda: np.ma.masked_array(np.arange(6.0).reshape(2, 3), mask=[[0, 0, 1], [1, 0, 0]]),
+             lambda: np.rec.array([(1, 2.5), (3, 4.5)], dtype=[("a", "<i4"), ("b", "<f8")]),
+             lambda: np.arange(6, dtype="<i4").reshape(2, 3)][k]()
+        obj = {"k": [x, 1], "again": x} if ne else x
+        comp = [0, ("zlib", 3), ("lzma", 1)][c]
+        buf = io.BytesIO()
+        joblib.dump(obj, buf, compress=comp)
+        back = joblib.load(io.BytesIO(buf.getvalue()))
+        got = back["k"][0] if ne else back
+        why = None
+        if type(got) is not type(x):
+            why = "loaded as %s, dumped a %s" % (type(got).__name__, type(x).__name__)
+        elif isinstance(x, np.ma.MaskedArray):
+            if not (np.array_equal(np.ma.getmaskarray(got), np.ma.getmaskarray(x)) and got.fill_value == x.fill_value
+                    and np.array_equal(got.filled(-1), x.filled(-1))):
+                why = "mask / fill value / data differ: %r" % (got,)
+        elif isinstance(x, np.recarray):
+            if not (got.dtype == x.dtype and got.a.tolist() == x.a.tolist() and got.b.tolist() == x.b.tolist()):
+                why = "record content differs: %r" % (got,)
+        elif not np.array_equal(got, x):
+            why = "content differs"
+        return H.verdict(why is None, "%s (nested=%r, compress=%r): %s" % (type(x).__name__, ne, comp, why))
+
+
 def ob_mmap(di: int, si: int, li: int, mode: int, lead: int) -> bool:
     """
     pre: 0 <= di <= 12
@@ -357,16 +394,18 @@ def prepare(params):
 
 
 VIEWS = ["m", "m[2:]", "m[3]", "m[:, 2:5]", "m[1:5, 3:7]", "m[::2]", "m[:, ::3]", "np.asarray(m)[2:]", "m[4:, 1]",
-         "f", "f[2:]", "f[:, 1:4]", "m[1:2, :]", "m.T", "m[::-1]", "m.T[1:]", "m[::-1, ::2]", "f.T"]
+         "f", "f[2:]", "f[:, 1:4]", "m[1:2, :]", "m.T", "m[::-1]", "m.T[1:]", "m[::-1, ::2]", "f.T",
+         # the same bytes under another dtype (reinterpreting views)
+         "m.view('<i8')", "m.view('>f8')", "m[2:].view('<u4')", "m.view('u1')[:, 3:40]", "m[1:3].view('<i2')[:, ::2]"]
 
 
 def ob_memmap_reduce(vi: int) -> bool:
     """
-    pre: 0 <= vi <= 17
+    pre: 0 <= vi <= 22
     post: _
     """
     H.enter()
-    v = H.select(vi, 0, 17)
+    v = H.select(vi, 0, 22)
     with H.native():
         import numpy as np
         from joblib._memmapping_reducer import _get_backing_memmap, _reduce_memmap_backed
@@ -418,6 +457,8 @@ def obligations(tier, seed):
                     "bounds": "14 dtypes x 7 shapes x 6 layouts x (bare | nested in containers, shared)"})
     obs.append({"name": "mmap", "fn": "ob_mmap", "mode": "S", "numpy": True, "timeout": 1500,
                 "bounds": "13 dtypes x 7 shapes x C/F x 4 mmap modes x 4 leading-string lengths"})
+    obs.append({"name": "subclass", "fn": "ob_subclass", "mode": "S", "numpy": True, "timeout": 300,
+                "bounds": "MaskedArray (1-d with fill value, 2-d), recarray and a plain array, bare or nested, uncompressed / zlib / lzma"})
     obs.append({"name": "memmap_reduce", "fn": "ob_memmap_reduce", "mode": "S", "numpy": True, "params": {"memmap": True},
-                "timeout": 300, "bounds": "18 views (slices, rows, columns, strided, transposed, reversed) of C- and F-ordered read-only memmaps with a non-zero file offset"})
+                "timeout": 300, "bounds": "23 views (slices, rows, columns, strided, transposed, reversed, reinterpreted under another dtype) of C- and F-ordered read-only memmaps with a non-zero file offset"})
     return obs
